@@ -272,6 +272,11 @@ def coq_obsr(kind, r):
     raise ValueError(kind)
 
 
+def zlib_crc(t):
+    import zlib
+    return zlib.crc32(t.encode())
+
+
 def run_query(obj, q):
     """q is a tuple; returns (coq query text, kind, canonical result)"""
     k = q[0]
@@ -298,7 +303,11 @@ def run_query(obj, q):
             pass
         return ('QKeys', 'keys', res)
     if k == 'geti':
-        i = np.int64(q[1]) if (len(q) > 2 and q[2] == 'np') else q[1]
+        i = q[1]
+        if len(q) > 2 and q[2] == 'np':
+            # numpy integer scalars of every width and signedness (unsigned ones for non-negative positions)
+            tys = [np.int64, np.int32, np.int16, np.intp] + ([np.uint8, np.uint16, np.uint32, np.uint64] if q[1] >= 0 else [])
+            i = tys[zlib_crc(repr(q)) % len(tys)](q[1])
         return (f'(QGetI {z(q[1])})', 'val', obs_call(lambda: obj[i]))
     if k == 'getk':
         return (f'(QGetK {coq_str(q[1])})', 'val', obs_call(lambda: obj[q[1]]))
